@@ -151,6 +151,11 @@ def gen_compu(rng):
             if continuous:
                 s["den"] = 1
                 s["num"] = sign * rng.choice([1, 2, 3])
+                if n >= 2 and rng.random() < 0.2:
+                    # a plateau (slope zero, with the COMPU-INVERSE-VALUE which ODX demands for it): the method stays
+                    # monotone and continuous, for either sign of the other slopes
+                    s["num"] = 0
+                    s["inv"] = bounds[i]
                 if prev_end is not None:
                     s["off"] = prev_end - s["num"] * bounds[i]
                 prev_end = s["off"] + s["num"] * bounds[i + 1]
@@ -169,7 +174,7 @@ def gen_compu(rng):
                 hil = None
             elif form < 0.3:
                 lol = None
-            scales.append(dict(lo=lol, hi=hil, const=rng.choice(["on", "off", "err", f"t{i}", f"t{i}"]),
+            scales.append(dict(lo=lol, hi=hil, const=rng.choice(["on", "off", "err", f"t{i}", f"t{i}", "on ", " off", f"t {i}"]),  # (blanks are part of the text)
                                inv=rng.choice([None, None, lo + 1] + ([0, 0] if lo <= 0 <= hi else []))))
         return dict(k=k, scales=scales, pdef=rng.choice([None, None, "dflt"]), idef=rng.choice([None, None, 99]))
     if k == "tabintp":
